@@ -13,9 +13,8 @@ K1b the extracted model run on the ACTUAL iteration orders of the sets (recorded
 K3  the property oracle: bytes of every generated file across fresh subprocesses with PYTHONHASHSEED in
     {0..N}, shuffled creation orders of schema/query files in directories, regeneration over a previous
     generation (same seed, another seed, stale extra files), include_comments stable/none, both strategies,
-    plugins.  Differences inside a listed finding class (decided by a predicate on the INPUT plus a check that
-    the difference is only what the class allows) are KNOWN-FINDINGs; anything else is shrunk and reported
-    with the two seeds and a unified diff.
+    plugins.  The witnesses of the three repaired findings (corpus/C10/*.json) run first.  No finding class is
+    open: ANY difference is shrunk and reported with the two seeds and a unified diff.
 """
 from __future__ import annotations
 
@@ -46,9 +45,7 @@ PLUGINS = {
 }
 PLUGIN_SETS = [(), ("shorter",), ("extract",), ("noreimp",), ("fwdrefs",), ("shorter", "extract", "noreimp"), (),
                ("shorter", "extract", "fwdrefs", "noreimp")]
-F12 = "F12-dfs-set-order"
-TIE = "C10-isort-key-tie"
-LEAK = "C10-forward-refs-process-state"
+CORPUS = os.path.join(os.environ.get("VERIF_ROOT", "/verif"), "corpus", "C10")
 
 
 # ----------------------------------------------------------------------------------------------- helpers
@@ -111,9 +108,10 @@ def run_isolated(req: dict, hashseed: int) -> dict:
 
 
 def run_pool(reqs: list[dict], hashseed: int, jobs: int = 14) -> list[dict]:
-    """Pooled fresh interpreters with the given hash seed.  A generation with ClientForwardRefsPlugin changes
-    what LATER generations of the same process emit (finding C10-forward-refs-process-state), so such requests
-    get an interpreter of their own and never share one with anything else."""
+    """Pooled fresh interpreters with the given hash seed.  Before be644af a generation with
+    ClientForwardRefsPlugin changed what LATER generations of the same process emitted; such requests still get
+    an interpreter of their own, so that a return of that defect shows up in the dedicated same-interpreter
+    sequences (with a clear label) rather than as scattered hash-seed differences."""
     out: list = [None] * len(reqs)
     iso = [i for i, r in enumerate(reqs) if has_fwdrefs(r)]
     pooled = [i for i in range(len(reqs)) if i not in set(iso)]
@@ -256,19 +254,6 @@ def k1_scan(ctx, repo):
             f"K1 new unordered-collection site not in the model's site table: {s['file']}:{s['lines'][0]} "
             f"{s['function']}: {s['context']} {s['expression']}", {"stage": "K1 static scan", "new_site": s},
             found_input=False)
-    # which form of the two known-finding sites does the code have? (the model is run in the same form)
-    def form(f, fn, expr):
-        has_sorted = (f, fn, "sorted", expr) in counts
-        has_iter = (f, fn, "iter", expr) in counts
-        return has_sorted and not has_iter
-    ctx._forms = {
-        "dfs_sorted": form("client_generators/fragments.py", "FragmentsGenerator._get_sorted_fragments_names.visit",
-                           "dependencies_dict[name]"),
-        "imports_sorted": form("client_generators/result_types.py",
-                               "ResultTypesGenerator._add_enums_scalars_fragments_imports",
-                               "self._fragments_used_as_mixins"),
-    }
-    run.extra["model_forms"] = dict(ctx._forms)
     stale = [list(k) for k in table if k not in counts]
     run.extra["table_rows_not_in_code"] = stale
     run.extra["order_sensitive_rows_present"] = [list(k) for k, v in table.items() if v[1] and k in counts]
@@ -305,6 +290,13 @@ class Case:
 def build_cases(ctx) -> list[Case]:
     t = ctx.thorough
     cases = []
+    import json
+
+    for f in sorted(os.listdir(CORPUS)) if os.path.isdir(CORPUS) else []:
+        d = json.load(open(os.path.join(CORPUS, f)))
+        sc = scen_gen.Scenario(seed=0, sdl=d["schema"], queries=d["queries"], config=dict(d.get("config") or {}))
+        cases.append(Case("corpus:" + f[:-5], sc, d.get("plugins") or (), "corpus"))
+    n_corpus = len(cases)
     n_shared, n_stress, n_fold = (30, 36, 18) if t else (8, 10, 5)
     i = k = 0
     while i < n_shared and k < 4 * n_shared:
@@ -321,7 +313,7 @@ def build_cases(ctx) -> list[Case]:
     for i in range(n_fold):
         sc = c10_gen.make(500 + i + ctx.seed * 10007, ("casefold",))
         cases.append(Case(f"casefold{i}", sc, PLUGIN_SETS[(i * 2) % len(PLUGIN_SETS)], "casefold"))
-    for i, c in enumerate(cases):
+    for i, c in enumerate(cases[n_corpus:]):
         if i % 3 == 1:   # pruned enums / inputs (the used-name lists come from several generators)
             c.sc.config = {**c.sc.config, "include_all_enums": False, "include_all_inputs": False}
     for c in cases:
@@ -358,27 +350,7 @@ class Classifier:
         return self._keys[name]
 
     def explain(self, case: Case, fname: str, a: bytes, b: bytes) -> str | None:
-        """finding class that fully explains the difference of one file, or None"""
-        if not fname.endswith(".py"):
-            return None
-        try:
-            sa, sb = a.decode(), b.decode()
-            frag_mod = case.sc.config.get("fragments_module_name", "fragments") + ".py"
-            if fname == frag_mod and case.probe.get("f12_class"):
-                if toplevel_multiset(sa) == toplevel_multiset(sb):
-                    return F12
-            da, ga = import_name_view(sa)
-            db, gb = import_name_view(sb)
-            if da == db and ga != gb and len(ga) == len(gb):
-                for x, y in zip(ga, gb):
-                    if x != y:
-                        if sorted(x) != sorted(y) or [self.key(n) for n in x] != [self.key(n) for n in y]:
-                            return None
-                        if len({self.key(n) for n in x}) == len(x):
-                            return None
-                return TIE
-        except SyntaxError:
-            return None
+        """finding class that fully explains the difference of one file — none is open for C10"""
         return None
 
 
@@ -396,7 +368,7 @@ def k1_probe(ctx, case: Case, seed: int, res: dict, files: dict[str, bytes]):
         g = gens[i] if i < len(gens) else {"defs": d["processed"], "exclude": []}
         mix = [[k, sorted(v)] for k, v in d["deps_iter"].items()]
         oc = [[k, lehmer(sorted(v), v)] for k, v in d["deps_iter"].items()]
-        cmds.append([Sym("fragorder"), ctx._forms["dfs_sorted"], g["defs"], mix, g["exclude"], oc])
+        cmds.append([Sym("fragorder"), g["defs"], mix, g["exclude"], oc])
         expect.append([d["processed"], d["result"]])
         what.append(("dfs", d))
         maxdeps = max([len(v) for v in d["deps_iter"].values()] or [0])
@@ -410,7 +382,7 @@ def k1_probe(ctx, case: Case, seed: int, res: dict, files: dict[str, bytes]):
     for m in probe.get("op_mixins") or []:
         if not m["iter"]:
             continue
-        cmds.append([Sym("opimports"), ctx._forms["imports_sorted"], lehmer(sorted(m["iter"]), m["iter"]), sorted(m["iter"])])
+        cmds.append([Sym("opimports"), lehmer(sorted(m["iter"]), m["iter"]), sorted(m["iter"])])
         expect.append(m)
         what.append(("imports", m))
     out = model.batch("C10", cmds) if cmds else []
@@ -699,7 +671,7 @@ def k3(ctx, scratch):
             run.dist("finding_class_inputs", "+".join(k for k in ("f12_class", "tie_class") if c.probe.get(k)) or "none")
 
         # ---- K3 comparisons
-        def compare(c, ka, kb, la, lb, what, seeds_pair=None, allow_classes=False, only=None):
+        def compare(c, ka, kb, la, lb, what, seeds_pair=None, only=None):
             fa, fb = results.get((c.sid, ka)), results.get((c.sid, kb))
             if fa is None or fb is None:
                 return
@@ -711,17 +683,6 @@ def k3(ctx, scratch):
             if fa == fb:
                 return
             differing = [n for n in sorted(set(fa) | set(fb)) if fa.get(n) != fb.get(n)]
-            if allow_classes:
-                classes = [cls.explain(c, n, fa.get(n, b""), fb.get(n, b"")) if n in fa and n in fb else None
-                           for n in differing]
-                if all(classes):
-                    for n, k in zip(differing, classes):
-                        run.finding(k, f"{c.sid}: {n} differs between {la} and {lb}",
-                                    {"case": c.sid, "hashseeds": list(seeds_pair or []), "file": n,
-                                     "queries": c.sc.queries, "schema": c.sc.sdl, "config": c.config(),
-                                     "diff": udiff(fa[n], fb[n], n, la, lb, 40)})
-                        run.dist("finding_files", k)
-                    return
             report_mismatch(ctx, c, what, la, lb, fa, fb, scratch, seeds=seeds_pair)
 
         for c in cases:
@@ -733,7 +694,7 @@ def k3(ctx, scratch):
             run.dist("distinct_outputs_over_seeds", str(len(distinct)))
             for s in seeds[1:]:
                 compare(c, ("seed", 0), ("seed", s), "PYTHONHASHSEED=0", f"PYTHONHASHSEED={s}",
-                        "hash seed", seeds_pair=(0, s), allow_classes=True)
+                        "hash seed", seeds_pair=(0, s))
             # creation order of the files of the schema / queries directories (hash seed held fixed by
             # comparing only the files no finding class touches when the seed differs)
             compare(c, ("split", 0, 0), ("split", 0, 1), "creation order 0", "creation order 1", "file creation order")
@@ -741,9 +702,9 @@ def k3(ctx, scratch):
                 compare(c, ("split", 0, 0), ("listing", lo), "listing as the OS gives it", f"listing {lo}",
                         "directory listing order")
             compare(c, ("split", 0, 0), ("split", 1, 2), "creation order 0 seed 0", "creation order 2 seed 1",
-                    "file creation order + hash seed", seeds_pair=None, allow_classes=True)
+                    "file creation order + hash seed", seeds_pair=None)
             compare(c, ("split", 0, 0), ("split", 2, 3), "creation order 0 seed 0", "creation order 3 seed 2",
-                    "file creation order + hash seed", seeds_pair=None, allow_classes=True)
+                    "file creation order + hash seed", seeds_pair=None)
             # regeneration
             compare(c, ("seed", 0), ("regen", 0, 0), "fresh", "regenerated over itself", "regenerate (same seed)")
             compare(c, ("seed", 1), ("regen", 2, 1), "fresh seed 1", "seed 1 over a seed-2 generation",
@@ -754,7 +715,7 @@ def k3(ctx, scratch):
                     "regenerate (stable comments)")
             for s in (1, 2):
                 compare(c, ("stable", 0), ("stable", s), "stable seed 0", f"stable seed {s}", "hash seed (stable comments)",
-                        seeds_pair=None, allow_classes=True)
+                        seeds_pair=None)
             # stale directory: the files of the package are those of a fresh run, the others are untouched
             st = results.get((c.sid, ("stale", 0)))
             if st is not None:
@@ -835,7 +796,7 @@ def k1_procstate(ctx, kind, cs, got, fresh_last: bytes, second_last: bytes):
     real_top, real_tc = base_model_imports(second_last)
     plugin2 = "fwdrefs" in cs[-1].plugins
     wanted2 = fresh_tc if plugin2 else []
-    out = model.call("C10", [Sym("procstate"), False, [[True, wanted], [plugin2, wanted2]], st0])
+    out = model.call("C10", [Sym("procstate"), [[True, wanted], [plugin2, wanted2]], st0])
     imps2, moved2 = out[1]
     pred_names = sorted(n for m, names in imps2 if m == "base_model" for n in names)
     used = set(fresh_top) | set(fresh_tc)
@@ -891,15 +852,9 @@ def k3_same_process(ctx, cases, scratch, results):
         client_file = cs[-1].sc.config.get("client_file_name", "client") + ".py"
         if kind != "twice" and client_file in last and client_file in want:
             k1_procstate(ctx, kind, cs, got, want[client_file], last[client_file])
-        if kind != "twice" and differing == [client_file]:
-            run.finding(LEAK, f"{cs[-1].sid}: {client_file} of the second generation in one interpreter differs ({kind})",
-                        {"sequence": [c.sid for c in cs], "kind": kind, "plugins": [list(c.plugins) for c in cs],
-                         "queries": cs[-1].sc.queries, "schema": cs[-1].sc.sdl, "config": cs[-1].config(),
-                         "diff": udiff(want[client_file], last[client_file], client_file, "fresh process", "second in process", 40)})
-            run.nontrivial_case(("process-state", kind, cs[-1].sid))
-        else:
-            report_mismatch(ctx, cs[-1], f"second generation in one interpreter differs ({kind}: {[c.sid for c in cs]})",
-                            "fresh process", "second in process", want, last, scratch)
+        report_mismatch(ctx, cs[-1], f"second generation in one interpreter differs ({kind}: {[c.sid for c in cs]})",
+                        "fresh process", "second in process", want, last, scratch)
+        run.nontrivial_case(("process-state", kind, cs[-1].sid))
 
 
 def k3_schema(ctx, cases, scratch, seeds):
